@@ -3,6 +3,22 @@ TRUST = ("trusted: CPython ast; the checker's own engines; for table rules the i
          "against the real loaders at development time). Known findings are listed in KNOWN_FINDINGS.txt. ")
 
 META = {
+    "C03": {
+        "engine": "sa: dataflow/guard engine, family-wise pairing, deletion-site classification, table model",
+        "technique": "exact hit/miss partition by enumeration of all truth assignments; def-use of the printed and returned "
+                     "lists; creation/cleanup pairing per temporary-atom family and class; who-may-delete table; closed "
+                     "continue-guard sets; exhaustive name->class maps; template uniqueness",
+        "text": "decides the structural conditions for 'no atom silently lost, duplicated or invented': each atom enters "
+                "exactly one of the hit/miss lists, only the hit list (extended by ligand atoms, which are taken off the miss "
+                "list) is printed and the miss list is returned; every optimisation class that creates FLIP copies, lone "
+                "pairs or doubled hydrogens cleans exactly that family in complete() (or in every method that declares the "
+                "residue fixed); every optimisation object is finalised or completed; cleanup runs on every non-assign-only "
+                "path; each deletion site outside the bookkeeping is reported or bounded by the patch tables; add_hydrogens "
+                "skips a topology hydrogen only for three closed reasons and warns when it cannot place one; every residue "
+                "name/opttype has a class; no template or patch repeats an atom name. Packing-dependent survival of "
+                "temporaries and repair success are not decided.",
+        "note": TRUST,
+    },
     "C14": {
         "engine": "sa: constant folding, finite case analysis, block-local typestate",
         "technique": "constant folding of the neighbourhood enumeration per instantiated cell size; complete case "
